@@ -11,8 +11,9 @@ import sys
 os.chdir(os.path.dirname(os.path.abspath(__file__)))
 assert not [l for l in subprocess.run(["git", "-C", "/repo", "status", "--short"], capture_output=True, text=True).stdout.splitlines() if "issue-50" not in l], "/repo is dirty"
 m = json.load(open("seeded/MATRIX.json"))
-for prop in sys.argv[1:]:
-    for d in sorted(glob.glob(f"seeded/{prop}-[ABCDEF]")):
+for arg in sys.argv[1:]:
+    prop = arg.split("-")[0]
+    for d in sorted(glob.glob(f"seeded/{arg}" if "-" in arg else f"seeded/{prop}-[ABCDEF]")):
         sid = os.path.basename(d)
         patch = os.path.abspath(os.path.join(d, "patch.diff"))
         status = json.load(open(os.path.join(d, "meta.json"))).get("status", "")[:11]
